@@ -41,6 +41,7 @@ BIN_THOROUGH = BIN_QUICK + [
   FAB(2, 2, 2, A_EDGES=edges(2, 2, lambda q, a, r: a == 0), A_START=0, A_STARTFIX=1, B_START=0, B_STARTFIX=1),   # 6+10: A uses letter a only; starts {0}; finals free
   FAB(2, 2, 2, A_START=0, A_STARTFIX=1, A_FIN=0, A_FINFIX=2, B_START=0, B_STARTFIX=1, B_FIN=0, B_FINFIX=3),     # 8+8: all 16 edges; A: 0 start, 1 final; B: 0 start, both final
   FAB(2, 2, 2, A_START=0, A_STARTFIX=3, A_FIN=0, A_FINFIX=2, B_START=0, B_STARTFIX=1, B_FIN=0, B_FINFIX=2),     # 8+8: A with two start states (product states with only one start component), finals {1}
+  FAB(2, 2, 2, A_FIN=0, A_FINFIX=2, B_EDGES=edges(2, 2, lambda q, a, r: r == 1), B_START=0, B_STARTFIX=1),             # 10+6: A all 8 edges, start bits free, final {1}; B edges into state 1 only, start {0}, finals free
   FAB(2, 3, 1, A_START=0, A_STARTFIX=1, B_START=0, B_STARTFIX=1, B_FIN=4),                                       # 6+10: one letter, 2x3 states
 ]
 def ops(univ, which, **kw):
